@@ -77,6 +77,8 @@ def configs(tier, seed):
         for M in ([3, 8, 64] if tier == 'quick' else [2, 3, 5, 8, 13, 64]):
             out.append(('comp', fam, M, True, None))
     out.append(('wsgi', -1, 5, True, None))
+    # the input stream is a plain io.BytesIO holding more than Content-Length (what many servers and test clients hand over)
+    out.append(('bytesio', 0, 0, False, None))
     # seed extension: one extra (n, M) family, explored just as exhaustively
     extra_n = 9 + seed % 3 if tier == 'quick' else 15 + seed % 2
     out.append(('comp', extra_n, 2 + seed % 5, True, None))
@@ -100,7 +102,7 @@ def bounds(tier, seed):
             'content_length': 'absent, 0..n+2', 'multipart_family_answer_menu': 'reads that could be answered in more than 8 ways are answered with all/1/2/all-1 bytes', 'unmerged_bound': 2}
 
 
-FLOORS = {'multipart_ctype': 4, 'short_read_execs': 50, 'kind_file': 5, 'kind_memory': 5, 'cl_below': 5, 'cl_equal': 5, 'cl_above': 5,
+FLOORS = {'bytesio_cases': 500, 'multipart_ctype': 4, 'short_read_execs': 50, 'kind_file': 5, 'kind_memory': 5, 'cl_below': 5, 'cl_equal': 5, 'cl_above': 5,
           'wsgi_execs': 20}
 
 
@@ -196,10 +198,56 @@ def judge(kind, obs, n, CL, M):
     return None
 
 
+def run_bytesio(om, n, CL, M, extra):
+    import io
+    data = data_of(n) + extra
+    stream = io.BytesIO(data)
+    env = wsgi.environ('POST', '/', input=stream, clen=CL)
+    req = om.Request(env, config={'max_memfile_size': M})
+    obs = {'hang': False, 'exc': None, 'calls': [], 'replaced': True}
+    try:
+        b = req.body
+        obs['kind'] = body_kind(b)
+        obs['content'] = b.read()
+        obs['again'] = req.body.read()
+        wi = env['wsgi.input']
+        wi.seek(0)
+        obs['wsgi_input'] = wi.read()
+    except Exception as e:   # noqa
+        obs['exc'] = f'{type(e).__name__}: {e}'
+    return obs, data
+
+
+def work_bytesio(res, om):
+    c = res['counters']
+    for n in range(0, 11):
+        for extra in (b'', b'NEXT-REQUEST'):
+            for CL in cls_for(n):
+                for M in (1, 3, 8, 64):
+                    obs, data = run_bytesio(om, n, CL, M, extra)
+                    res['execs'] += 1
+                    res['states'] += 1
+                    res['transitions'] += 1
+                    c['bytesio_cases'] += 1
+                    exp = expected(data, CL)
+                    bad = None
+                    if obs['exc']:
+                        bad = obs['exc']
+                    elif obs['content'] != exp or obs['again'] != exp or obs['wsgi_input'] != exp:
+                        bad = f'body {obs["content"]!r} / second access {obs["again"]!r} / buffered wsgi.input {obs["wsgi_input"]!r}, expected {exp!r}'
+                    if bad:
+                        core.add_violation(res, {'kind': 'bytesio', 'n': n, 'CL': CL, 'M': M, 'extra': extra, 'choices': []},
+                                           f'BytesIO input {data!r} CL={CL} M={M}: {bad}', sig='bytesio:content')
+    core.add_sample(res, {'kind': 'bytesio', 'lengths': '0..10', 'trailing': ['', 'NEXT-REQUEST']})
+
+
 def work(spec):
     kind, n, M, merge, bound, cls = spec
     res = core.new_result()
     om = sut.load()
+    if kind == 'bytesio':
+        work_bytesio(res, om)
+        return res
     runner = run_component if kind == 'comp' else run_wsgi
     for CL in (cls or cls_for(n)):
         ex = EnvExplorer(merge=merge, bound=bound, horizon=60 * (len(data_of(n)) + 3))
@@ -238,6 +286,13 @@ def work(spec):
 
 def replay(case):
     om = sut.load()
+    if case['kind'] == 'bytesio':
+        obs, data = run_bytesio(om, case['n'], case['CL'], case['M'], case['extra'])
+        exp = expected(data, case['CL'])
+        if not obs['exc'] and obs['content'] == exp and obs['again'] == exp and obs['wsgi_input'] == exp:
+            return None
+        return (f'wsgi.input = io.BytesIO({data!r}), Content-Length={case["CL"]}, max_memfile_size={case["M"]}: body.read() gives '
+                f'{obs.get("content")!r} (second access {obs.get("again")!r}, exception {obs["exc"]}); expected {exp!r}')
     runner = run_component if case['kind'] == 'comp' else run_wsgi
     n, CL, M = case['n'], case['CL'], case['M']
     ex = EnvExplorer(merge=False, horizon=60 * (len(data_of(n)) + 3))
